@@ -2,6 +2,7 @@
 import random
 
 from .. import campaign as C
+from .. import decodecheck as D
 from .. import sweeps as S
 
 CONFIGS = [
@@ -67,8 +68,8 @@ def run(ctx):
     groups = C.parallel(_dispatch, tasks)
     res = C.judge_groups(ctx, groups, clause_filter, rnd=rnd,
                          site_of=lambda e, v: (e.get('tb', '').split(' ')[0] or e.get('cls') or v['path']),
-                         tags_of=lambda g, e, v: {'cfg': g.name.split('-')[1] if '-' in g.name else g.name,
-                                                  'tb': e.get('tb', ''), 'out': e['out']})
+                         tags_of=lambda g, e, v: dict(D.tags_of(g, e, v), cfg=g.name.split('-')[1] if '-' in g.name else g.name,
+                                                      tb=e.get('tb', ''), out=e['out']))
     t16 = sum(len(g.events) for g in groups if g.name.startswith('t16-'))
     ctx.exhaustive = True
     ctx.extra['t16_words_x_itpos_events'] = t16
